@@ -54,7 +54,9 @@ func (m *trackWriterAt) WriteAt(p []byte, off int64) (int, error) {
 	}
 	return len(p), nil
 }
-func (m *trackWriterAt) Write(p []byte) (int, error) { panic("Write must not be called on a WriterAt target") }
+func (m *trackWriterAt) Write(p []byte) (int, error) {
+	panic("Write must not be called on a WriterAt target")
+}
 
 func c03corruptions(st *lib.MemStore, roles map[string]string, target map[string]bool) []corruption {
 	var out []corruption
